@@ -14,7 +14,7 @@ func TestRoundTrip(t *testing.T) {
 	}
 	defer r.Close()
 
-	nasty := "a'\"\\\n\r  \x00</script>é😀\x7f\u0085"
+	nasty := "a'\"\\\n\r\u2028\u2029\x00</script>é😀\x7f\u0085"
 	src := "if (typeof ns == 'undefined') { var ns = {}; }\n" +
 		"ns.echo = function(opt_data, opt_sb, opt_ijData) { return opt_data.x + (opt_ijData ? opt_ijData.y : ''); };\n" +
 		"ns.esc = function(opt_data) { return soy.$$escapeHtml(opt_data.x); };\n" +
@@ -69,7 +69,7 @@ func TestRoundTrip(t *testing.T) {
 	if e := resp.Evals[0]; !e.OK || e.Out != "2" || e.JSON != "2" {
 		t.Errorf("eval0: %+v", e)
 	}
-	if e := resp.Evals[1]; !e.OK || e.JSON != "{\"a\":[1,\" \"]}" {
+	if e := resp.Evals[1]; !e.OK || e.JSON != "{\"a\":[1,\"\u2028\"]}" {
 		t.Errorf("eval1: %q %q", e.JSON, e.Err)
 	}
 	if e := resp.Evals[2]; e.OK || !e.Syntax {
